@@ -14,7 +14,10 @@
 From Coq Require Import List ZArith Bool Lia Sorted.
 From RP2V Require Import Base.Prelude Base.Time Base.Dec Base.Assoc Model.Types Model.Generated Model.Txn Model.Matcher Model.MatchWf Model.Pipeline
   Model.Computed Model.ComputedSpec Model.NumberSpec Proofs.FilterProofs Proofs.ComputedProofs Proofs.C10Proofs
-  Proofs.PipelineWf Proofs.NumberingProofs Proofs.NumberingLift Proofs.NumberingExamples.
+  Proofs.PipelineWf Proofs.NumberingProofs Proofs.NumberingLift Proofs.NumberingExamples
+  Proofs.DecProofs Proofs.FiatSumProofs Proofs.C04Reassembly Proofs.PriceProofs Proofs.SoldPctProofs.
+From Coq Require Import QArith Qabs.
+Open Scope Z_scope.
 Import ListNotations.
 Open Scope Z_scope.
 
@@ -232,6 +235,41 @@ Theorem C10_fraction_counts_end_to_end : forall h sched t period from_day to_day
       nth_error (cd_lotfrac cd) k = Some (lot_label cut j g).
 Proof. exact compute_tax_fraction_labels. Qed.
 
+(** * "average price reflects all history up to the to-date": total fiat cost including fees of the acquisitions seen up to
+    the to-date (31-digit left-to-right sum) divided by their total amount (exact), 0 when there is none; the acquisitions
+    seen are exactly those dated up to the to-date when dates are monotone; the from-date does not occur *)
+Theorem C10_average_price_spec : forall to_day ins d, price_per_unit to_day ins = Ok d ->
+  let l := take_until in_day to_day ins in
+  match l with
+  | [] => d = dzero
+  | _ => ddiv (dsum (map i_fiat_in_with_fee l)) (of_grid (sumZ (map i_crypto_in l))) = Some d
+  end.
+Proof. exact price_spec. Qed.
+Theorem C10_average_price_all_history : forall to_day ins, day_sorted in_day ins ->
+  take_until in_day to_day ins = filter (fun a => in_day a <=? to_day) ins.
+Proof. exact price_all_history. Qed.
+Theorem C10_average_price_accuracy : forall to_day ins d, price_per_unit to_day ins = Ok d ->
+  let l := take_until in_day to_day ins in
+  l <> [] ->
+  let S := dsum (map i_fiat_in_with_fee l) in
+  let C := of_grid (sumZ (map i_crypto_in l)) in
+  (Qabs (to_q d - to_q S / to_q C) <= EPS * Qabs (to_q S / to_q C))%Q /\
+  ((2 * nq (length l) * EPS <= 1)%Q ->
+   (Qabs (to_q S - qsum (map i_fiat_in_with_fee l)) <= nq (length l) * (2 * EPS) * qabs_sum (map i_fiat_in_with_fee l))%Q).
+Proof. exact price_accuracy. Qed.
+
+(** the in-lot sold percentage (cited by C13) is the one figure that DOES depend on the window, by construction: for a lot
+    dated inside the window it is the 31-digit sum of amount / lot amount over the SHOWN fractions taken from it
+    ([sold_from from to r g]: [g] is taken from the lot of row [r] and that lot is dated in the window); lots dated
+    outside the window have no entry *)
+Theorem C10_sold_percentage_over_shown_fractions : forall period from_day to_day allow exs hos t fs cd,
+  compute period from_day to_day allow exs hos t fs = Ok cd ->
+  forall r, aget r (cd_sold_pct cd) = match filter (sold_from from_day to_day r) (cd_gls cd) with
+                                      | [] => None
+                                      | mine => Some (dsum (map lot_pct mine))
+                                      end.
+Proof. exact compute_sold_pct. Qed.
+
 (** Non-vacuity (Proofs/C10Proofs.v, history A of Proofs/L4Examples.v: unfiltered run [cdA], window 2020-05-01 ..
     2020-07-07 [cdA_win], to-date only [cdA_to]; evaluated by the kernel): [tA_time_sorted], [tA_dates_monotone],
     [c10_views_instance], [c10_independent_instance], [c10_from_instance] instantiate the theorems above;
@@ -243,7 +281,8 @@ Proof. exact compute_tax_fraction_labels. Qed.
     [labels_values]: the specified labels of the 4 fractions up to the to-date, equal to cd_evfrac / cd_lotfrac;
     [labels_pending_lot]; [numbering_needs_blocks]: interleaved events are mis-numbered without an error;
     [numbering_overdrawn_lot]: event blocks, [lots_ok] false, RP2ValueError; [numbering_partial_quirks]: the three cases of
-    C10_partial_event_quirk. *)
+    C10_partial_event_quirk.  Average price (Proofs/PriceProofs.v): [price_instance] (history A: 2150 / 16); sold percentage
+    (Proofs/SoldPctProofs.v): [sold_pct_instance], [sold_pct_window]. *)
 
 Print Assumptions C10_views_inside_window.
 Print Assumptions C10_views_exactly_the_window.
@@ -266,3 +305,7 @@ Print Assumptions C10_fraction_counts_reflect_history.
 Print Assumptions C10_matcher_output_is_event_blocks.
 Print Assumptions C10_numbering_never_fails_after_matching.
 Print Assumptions C10_fraction_counts_end_to_end.
+Print Assumptions C10_average_price_spec.
+Print Assumptions C10_average_price_all_history.
+Print Assumptions C10_average_price_accuracy.
+Print Assumptions C10_sold_percentage_over_shown_fractions.
